@@ -1,4 +1,4 @@
-/- Helper lemmas for KlogV/Props/GoSrc.lean (the translated Go source computes the model's functions). Core Lean only. -/
+/- Helper lemmas for KlogV/Props/GoSrc.lean (the translated Go source computes the model's functions), part A. Core Lean only. -/
 import KlogV.GoSem.Abs
 namespace KlogV.GoL
 open KlogV.Go
@@ -57,29 +57,6 @@ theorem time_toStringWithFormat_eq (t : Time) (b : Bool) (h : t.wf = true) :
     t.toGo.ToStringWithFormat ⟨b⟩ = .ok ({ t with is24 := b } : Time).print := by
   sorry
 
-theorem newDurationWithFormat_eq (h m : Int) (f : GoSrc.DurationFormat) :
-    (GoSrc.NewDurationWithFormat h m f).res =
-      ((safeMul h 60).bind fun x => safeAdd x m).map (fun tot => (⟨tot, f⟩ : GoSrc.duration)) := by
-  sorry
-
-theorem newDuration_eq (h m : Int) :
-    (GoSrc.NewDuration h m).res = ((safeMul h 60).bind fun x => safeAdd x m).map durOfMins := by
-  sorry
-
-theorem duration_plus_eq (a b : GoSrc.duration) :
-    (a.Plus b).res = (safeAdd a.minutes b.minutes).map durOfMins := by
-  sorry
-
-theorem duration_minus_eq (a b : GoSrc.duration) (hb : inInt64 b.minutes) :
-    (a.Minus b).res = (safeAdd a.minutes (-b.minutes)).map durOfMins := by
-  sorry
-
-theorem duration_toString_eq (d : Dur) (h : inInt64 d.mins) : d.toGo.ToString = .ok d.print := by
-  sorry
-
-theorem duration_toStringWithSign_eq (d : Dur) (h : inInt64 d.mins) : d.toGo.ToStringWithSign = .ok d.printSigned := by
-  sorry
-
 theorem newRange_eq (s e : Time) (sp : Bool) (hs : s.wf = true) (he : e.wf = true) :
     (GoSrc.NewRangeWithFormat s.toGo e.toGo ⟨sp⟩).res =
       if e.afterOrEqual s then .ok ⟨s.toGo, e.toGo, ⟨sp⟩⟩ else .err := by
@@ -95,27 +72,6 @@ theorem range_toString_eq (s e : Time) (sp : Bool) (hs : s.wf = true) (he : e.wf
 
 theorem openRange_toString_eq (s : Time) (sp : Bool) (extra : Nat) (hs : s.wf = true) (hx : (extra : Int) < 9223372036854775807) :
     (⟨s.toGo, ⟨sp, extra⟩⟩ : GoSrc.openRange).ToString = .ok (EntryVal.openRange s sp extra).print := by
-  sorry
-
-theorem newRounding_eq (r : Int) :
-    (GoSrc.NewRounding r).res = if 0 ≤ r ∧ validRoundings.contains r.toNat = true then .ok ⟨r⟩ else .err := by
-  sorry
-
-theorem newRoundingFromString_eq (s : List Char) :
-    (GoSrc.NewRoundingFromString s).res = (optRes (parseRounding s)).map (fun n => (⟨(n : Int)⟩ : GoSrc.rounding)) := by
-  sorry
-
-theorem roundToNearest_eq (t : Time) (v : Nat) (h : t.wf = true) (h0 : t.shift = 0) (h24 : t.is24 = true)
-    (hv : validRoundings.contains v = true) :
-    GoSrc.RoundToNearest t.toGo ⟨v⟩ = .ok (roundToNearest t v).toGo := by
-  sorry
-
-theorem newTimeFromString_eq (find : Str → List Str) (hf : TimeFind find) (s : List Char) :
-    (GoSrc.NewTimeFromString find s).res = (optRes (Time.parse s)).map Time.toGo := by
-  sorry
-
-theorem newDurationFromString_eq (find : Str → List Str) (hf : DurFind find) (s : List Char) :
-    (GoSrc.NewDurationFromString find s).res = (Dur.parse s).map Dur.toGo := by
   sorry
 
 end KlogV.GoL
